@@ -264,10 +264,6 @@ Proof.
   destruct (r_code st') as [code|]; [reflexivity|]. now apply IH.
 Qed.
 
-(* what the byte stream alone determines *)
-Definition reply_of_stream (limit : N) (s : list N) : rrs :=
-  read_reply_spec limit (S (S (length s))) (mkR None None) s.
-
 Lemma read_reply_run_is_stream limit c :
   rr_view (read_reply_run limit c) = reply_of_stream limit (stream c).
 Proof. unfold read_reply_run, reply_of_stream, read_reply_fuel. apply read_reply_is_spec. Qed.
@@ -480,375 +476,3 @@ Proof.
   apply Hgoal.
 Qed.
 
-(* ================================================================== *)
-(* the session: every write is one command line                        *)
-(* ================================================================== *)
-Definition ok_event (ev : event) : Prop :=
-  match ev with EvWrite b => one_line b | _ => True end.
-
-(* events of the control phase (everything before the data is read) *)
-Definition ctl_event (ev : event) : Prop :=
-  match ev with EvData _ | EvDataEof | EvDataClose => False | _ => True end.
-
-(* [m] leaves the data connection alone and only appends events satisfying P *)
-Definition pres (P : event -> Prop) {A} (m : M A) : Prop :=
-  forall s s' r, m s = (s', r) ->
-    s_data s' = s_data s /\ exists t, s_tr s' = s_tr s ++ t /\ Forall P t.
-
-Section Pres.
-  Variable P : event -> Prop.
-  Hypothesis HPw : forall b, one_line b -> P (EvWrite b).
-  Hypothesis HPr : forall code, P (EvReply code).
-  Hypothesis HPo : forall a p, P (EvDataOpen a p).
-
-  Lemma pres_ret {A} (a : A) : pres P (ret a).
-  Proof.
-    intros s s' r H. unfold ret in H. injection H as <- <-. split; [reflexivity|].
-    exists []. rewrite app_nil_r. split; constructor.
-  Qed.
-
-  Lemma pres_raise {A} e : pres P (@raise A e).
-  Proof.
-    intros s s' r H. unfold raise in H. injection H as <- <-. split; [reflexivity|].
-    exists []. rewrite app_nil_r. split; constructor.
-  Qed.
-
-  Lemma pres_bind {A B} (m : M A) (f : A -> M B) :
-    pres P m -> (forall a, pres P (f a)) -> pres P (bind m f).
-  Proof.
-    intros Hm Hf s s' r H. unfold bind in H.
-    destruct (m s) as [s1 [a|e]] eqn:Em.
-    - destruct (Hm _ _ _ Em) as (Hd1 & t1 & Ht1 & Ho1).
-      destruct (Hf a _ _ _ H) as (Hd2 & t2 & Ht2 & Ho2).
-      split; [congruence|]. exists (t1 ++ t2). rewrite Ht2, Ht1, app_assoc.
-      split; [reflexivity|]. apply Forall_app; split; assumption.
-    - injection H as <- <-. exact (Hm _ _ _ Em).
-  Qed.
-
-  Lemma pres_catch {A} (m : M A) (h : N -> M A) :
-    pres P m -> (forall code, pres P (h code)) -> pres P (catch_server m h).
-  Proof.
-    intros Hm Hh s s' r H. unfold catch_server in H.
-    destruct (m s) as [s1 [a|e]] eqn:Em.
-    - injection H as <- <-. exact (Hm _ _ _ Em).
-    - destruct e; try (injection H as <- <-; exact (Hm _ _ _ Em)).
-      destruct (Hm _ _ _ Em) as (Hd1 & t1 & Ht1 & Ho1).
-      destruct (Hh code _ _ _ H) as (Hd2 & t2 & Ht2 & Ho2).
-      split; [congruence|]. exists (t1 ++ t2). rewrite Ht2, Ht1, app_assoc.
-      split; [reflexivity|]. apply Forall_app; split; assumption.
-  Qed.
-
-  Lemma pres_emit ev : P ev -> pres P (emit ev).
-  Proof.
-    intros Ho s s' r H. unfold emit in H. injection H as <- <-. cbn [s_data s_tr].
-    split; [reflexivity|]. exists [ev]. split; [reflexivity|]. constructor; auto.
-  Qed.
-
-  Lemma pres_if {A} (b : bool) (m1 m2 : M A) : pres P m1 -> pres P m2 -> pres P (if b then m1 else m2).
-  Proof. destruct b; auto. Qed.
-
-  Lemma pres_write name arg : In name command_names -> pres P (write_command name arg).
-  Proof.
-    intros Hn s s' r H. unfold write_command in H.
-    destruct (to_bytes name arg) as [b| |] eqn:Eb.
-    - injection H as <- <-. cbn [s_data s_tr]. split; [reflexivity|].
-      exists [EvWrite b]. split; [reflexivity|]. constructor; [|constructor].
-      apply HPw. eapply to_bytes_one_line; eassumption.
-    - injection H as <- <-. split; [reflexivity|]. exists []. rewrite app_nil_r. split; constructor.
-    - injection H as <- <-. split; [reflexivity|]. exists []. rewrite app_nil_r. split; constructor.
-  Qed.
-
-  Lemma pres_read limit : pres P (read_reply_m limit).
-  Proof.
-    intros s s' r H. unfold read_reply_m in H.
-    destruct (read_reply_run limit (s_ctrl s)) as [code text c'|e].
-    - injection H as <- <-. cbn [s_data s_tr]. split; [reflexivity|].
-      exists [EvReply code]. split; [reflexivity|]. constructor; [apply HPr|constructor].
-    - injection H as <- <-. split; [reflexivity|]. exists []. rewrite app_nil_r. split; constructor.
-  Qed.
-
-  Lemma pres_expect codes r : pres P (expect_code codes r).
-  Proof. unfold expect_code. apply pres_if; [apply pres_ret|apply pres_raise]. Qed.
-
-  Ltac name_in := unfold command_names; cbn [In]; tauto.
-
-  Ltac pres_step limit :=
-    first
-      [ apply pres_ret | apply pres_raise | apply pres_expect | apply (pres_read limit)
-      | apply pres_write; name_in
-      | apply pres_bind; [|intros ?]
-      | apply pres_catch; [|intros ?]
-      | apply pres_if
-      | apply pres_emit; apply HPo ].
-
-  Lemma pres_login limit u p : pres P (login limit u p).
-  Proof. unfold login. repeat pres_step limit. Qed.
-
-  Lemma pres_prepare limit q fresh cached : pres P (prepare_fetch limit q fresh cached).
-  Proof.
-    unfold prepare_fetch, read_welcome, log_in.
-    repeat pres_step limit; apply pres_login.
-  Qed.
-
-  Lemma pres_open_data limit : pres P (open_data_stream limit).
-  Proof.
-    unfold open_data_stream. repeat pres_step limit.
-    match goal with
-    | |- pres P (match parse_address ?x with _ => _ end) => destruct (parse_address x) as [[addr port]|]
-    end; repeat pres_step limit.
-  Qed.
-
-  Lemma pres_begin limit name arg : In name command_names -> pres P (begin_stream limit name arg).
-  Proof. intros Hn. unfold begin_stream. repeat first [apply pres_write; exact Hn | pres_step limit]. Qed.
-
-  Lemma pres_start limit q fresh cached : pres P (start limit q fresh cached).
-  Proof.
-    unfold start, fetch_size, try_restart.
-    repeat first [apply pres_prepare | apply pres_open_data | apply pres_begin; name_in | pres_step limit].
-    destruct (q_restart q) as [n|]; [destruct (n =? 0)|]; repeat pres_step limit.
-  Qed.
-
-  Lemma pres_start_listing limit q fresh cached : pres P (start_listing limit q fresh cached).
-  Proof.
-    unfold start_listing.
-    repeat first [apply pres_prepare | apply pres_open_data | apply pres_begin; name_in | pres_step limit].
-  Qed.
-
-  Lemma pres_control limit q fresh cached :
-    pres P (if q_listing q then start_listing limit q fresh cached else start limit q fresh cached).
-  Proof. apply pres_if; [apply pres_start_listing|apply pres_start]. Qed.
-
-  (* the part of read_stream after the data has been read *)
-  Lemma pres_tail limit :
-    P EvDataClose ->
-    pres P (r <- read_reply_m limit;; expect_code [226] r;;; emit EvDataClose;;; ret r).
-  Proof.
-    intros Hc. repeat first [apply pres_emit; exact Hc | pres_step limit].
-  Qed.
-End Pres.
-
-Definition ctl_ok (ev : event) : Prop := ok_event ev /\ ctl_event ev.
-
-Lemma ctl_ok_w b : one_line b -> ctl_ok (EvWrite b).   Proof. intros H; split; [exact H|exact I]. Qed.
-Lemma ctl_ok_r code : ctl_ok (EvReply code).            Proof. split; exact I. Qed.
-Lemma ctl_ok_o a p : ctl_ok (EvDataOpen a p).           Proof. split; exact I. Qed.
-Lemma ok_w b : one_line b -> ok_event (EvWrite b).      Proof. intros H; exact H. Qed.
-Lemma ok_r code : ok_event (EvReply code).              Proof. exact I. Qed.
-Lemma ok_o a p : ok_event (EvDataOpen a p).             Proof. exact I. Qed.
-
-(* ================================================================== *)
-(* the data connection is read to EOF, then the 226 is required        *)
-(* ================================================================== *)
-Lemma conn_read_facts n c d c1 :
-  (n > 0)%nat -> conn_read n c = (d, c1) ->
-  stream c = d ++ stream c1 /\ (d = [] -> stream c1 = []).
-Proof.
-  intros Hn H. unfold conn_read in H.
-  set (c0 := match c_buf c with [] => deliver c | _ :: _ => c end) in *.
-  assert (Hs : stream c0 = stream c).
-  { unfold c0. destruct (c_buf c); [apply stream_deliver|reflexivity]. }
-  injection H as <- <-. unfold stream at 2 3; cbn [c_buf c_pending].
-  split.
-  - rewrite <- Hs. unfold stream. now rewrite app_assoc, firstn_skipn.
-  - intros Hd.
-    assert (Hb : c_buf c0 = []).
-    { revert Hd. destruct (c_buf c0) as [|y0 b0]; [reflexivity|]. destruct n; [lia|]. cbn [firstn]. congruence. }
-    rewrite Hb, skipn_nil. cbn [app].
-    unfold c0 in Hb |- *. destruct (c_buf c) as [|x b] eqn:Eb; [|congruence].
-    unfold deliver in Hb |- *; cbn [c_buf c_pending] in Hb |- *. rewrite Eb in Hb. cbn [app] in Hb.
-    pose proof (seg_len_pos c) as Hp.
-    destruct (c_pending c) as [|y ps]; [now rewrite skipn_nil|].
-    destruct (seg_len c); [lia|]. cbn [firstn] in Hb. congruence.
-Qed.
-
-Lemma read_file_all n fuel : forall c chunks c',
-  (n > 0)%nat -> read_file n fuel c = Some (chunks, c') ->
-  concat chunks = stream c /\ stream c' = [].
-Proof.
-  induction fuel as [|f IH]; intros c chunks c' Hn H; [discriminate|].
-  cbn [read_file] in H. destruct (conn_read n c) as [d c1] eqn:Er.
-  destruct (conn_read_facts _ _ _ _ Hn Er) as [Hs He].
-  destruct d as [|x d].
-  - injection H as <- <-. cbn [concat]. rewrite Hs. cbn [app]. split; [symmetry|]; now apply He.
-  - destruct (read_file n f c1) as [[ds c2]|] eqn:Ef; [|discriminate].
-    injection H as <- <-. destruct (IH _ _ _ Hn Ef) as [H1 H2].
-    cbn [concat]. rewrite H1, Hs. split; [reflexivity|assumption].
-Qed.
-
-Lemma read_file_fuel_ok n fuel : forall c,
-  (n > 0)%nat -> (fuel > length (stream c))%nat -> read_file n fuel c <> None.
-Proof.
-  induction fuel as [|f IH]; intros c Hn Hf; [lia|].
-  cbn [read_file]. destruct (conn_read n c) as [d c1] eqn:Er.
-  destruct (conn_read_facts _ _ _ _ Hn Er) as [Hs He].
-  destruct d as [|x d]; [discriminate|].
-  assert (Hlt : (f > length (stream c1))%nat).
-  { rewrite Hs, app_length in Hf. cbn [length] in Hf. lia. }
-  specialize (IH c1 Hn Hlt). destruct (read_file n f c1) as [[ds c2]|]; [discriminate|contradiction].
-Qed.
-
-Lemma existsb_single a b : existsb (N.eqb a) [b] = true -> a = b.
-Proof. cbn [existsb]. lia. Qed.
-
-(* Commander.read_stream *)
-Lemma read_stream_ok limit s s' r :
-  read_stream limit s = (s', Ok r) ->
-  exists chunks text c',
-    s_tr s' = s_tr s ++ map EvData chunks ++ [EvDataEof; EvReply 226; EvDataClose]
-    /\ concat chunks = stream (s_data s)
-    /\ stream (s_data s') = []
-    /\ r = (226, text)
-    /\ read_reply_run limit (s_ctrl s) = RROk 226 text c'.
-Proof.
-  unfold read_stream.
-  destruct (read_file 4096 (read_file_fuel (s_data s)) (s_data s)) as [[chunks d']|] eqn:Ef; [|discriminate].
-  assert (H4096 : (4096 > 0)%nat) by lia.
-  destruct (read_file_all _ _ _ _ _ H4096 Ef) as [Hc He].
-  unfold bind, read_reply_m, expect_code, emit, ret, raise. cbn [s_ctrl s_data s_tr].
-  destruct (read_reply_run limit (s_ctrl s)) as [code text c'|e] eqn:Err; [|discriminate].
-  cbn [fst].
-  destruct (existsb (N.eqb code) [226]) eqn:Ex; [|discriminate].
-  apply existsb_single in Ex. subst code.
-  intros H. injection H as <- <-. cbn [s_tr s_data].
-  exists chunks, text, c'. repeat split; try assumption.
-  rewrite <- !app_assoc. reflexivity.
-Qed.
-
-Lemma read_stream_trace limit s s' r :
-  read_stream limit s = (s', r) ->
-  exists t, s_tr s' = s_tr s ++ t /\ Forall ok_event t.
-Proof.
-  unfold read_stream.
-  destruct (read_file 4096 (read_file_fuel (s_data s)) (s_data s)) as [[chunks d']|].
-  2:{ intros H. injection H as <- <-. exists []. rewrite app_nil_r. split; [reflexivity|constructor]. }
-  intros H.
-  destruct (pres_tail ok_event ok_r limit I _ _ _ H) as (_ & t & Ht & Ho).
-  cbn [s_tr] in Ht. exists ((map EvData chunks ++ [EvDataEof]) ++ t).
-  rewrite Ht, <- !app_assoc. split; [reflexivity|].
-  rewrite !Forall_app. repeat split; try assumption.
-  - apply Forall_forall. intros ev Hin. apply in_map_iff in Hin. destruct Hin as (x & <- & _). exact I.
-  - repeat constructor.
-Qed.
-
-Lemma read_reply_m_no_fuel limit s s' : read_reply_m limit s <> (s', Err EFuel).
-Proof.
-  unfold read_reply_m.
-  pose proof (read_reply_run_is_stream limit (s_ctrl s)) as Hv.
-  pose proof (reply_of_stream_no_fuel limit (stream (s_ctrl s))) as Hn.
-  destruct (read_reply_run limit (s_ctrl s)) as [code text c'|e]; [discriminate|].
-  intros H. assert (e = EFuel) by congruence. subst e. cbn [rr_view] in Hv. congruence.
-Qed.
-
-Lemma bind_ok {A B} (m : M A) (f : A -> M B) s s' b :
-  bind m f s = (s', Ok b) -> exists s1 a, m s = (s1, Ok a) /\ f a s1 = (s', Ok b).
-Proof.
-  unfold bind. destruct (m s) as [s1 [a|e]]; [|discriminate]. intros H. now exists s1, a.
-Qed.
-
-(* C17 (a): whatever the request holds and whatever the server sends, under any
-   segmentation: every write of the visit is one command line. *)
-Theorem visit_one_line limit q fresh cached s s' r :
-  visit limit q fresh cached s = (s', r) ->
-  exists t, s_tr s' = s_tr s ++ t /\ Forall ok_event t.
-Proof.
-  unfold visit, bind. intros H.
-  pose proof (pres_control ok_event ok_w ok_r ok_o limit q fresh cached) as Hp.
-  destruct ((if q_listing q then start_listing limit q fresh cached else start limit q fresh cached) s)
-    as [s1 [a|e]] eqn:Es.
-  - destruct (Hp _ _ _ Es) as (_ & t1 & Ht1 & Ho1).
-    destruct (read_stream_trace _ _ _ _ H) as (t2 & Ht2 & Ho2).
-    exists (t1 ++ t2). rewrite Ht2, Ht1, app_assoc. split; [reflexivity|].
-    apply Forall_app; split; assumption.
-  - injection H as <- <-. destruct (Hp _ _ _ Es) as (_ & t1 & Ht1 & Ho1). now exists t1.
-Qed.
-
-(* a path / user name / password with CR, LF or NUL is refused before it is written *)
-Theorem bad_argument_not_written name arg :
-  existsb bad_char arg = true ->
-  forall s, write_command name arg s = (s, Err EProtocol).
-Proof. intros H s. unfold write_command. now rewrite to_bytes_rejects. Qed.
-
-(* C17 (c): the visit reports a complete transfer only if, after the control
-   phase, the data connection was read to EOF (all its bytes, in order, went to
-   the file), THEN a reply was read from the control connection and it was 226. *)
-Theorem visit_complete_only_after_226 limit q fresh cached s s' r :
-  visit limit q fresh cached s = (s', Ok r) ->
-  exists t1 chunks text s1 c',
-    s_tr s' = s_tr s ++ t1 ++ map EvData chunks ++ [EvDataEof; EvReply 226; EvDataClose]
-    /\ s_tr s1 = s_tr s ++ t1
-    /\ Forall ctl_event t1
-    /\ concat chunks = stream (s_data s)
-    /\ stream (s_data s') = []
-    /\ r = (226, text)
-    /\ read_reply_run limit (s_ctrl s1) = RROk 226 text c'.
-Proof.
-  unfold visit. intros H. apply bind_ok in H. destruct H as (s1 & a & Hs & Hr).
-  destruct (pres_control ctl_ok ctl_ok_w ctl_ok_r ctl_ok_o limit q fresh cached _ _ _ Hs) as (Hd & t1 & Ht1 & Hc1).
-  destruct (read_stream_ok _ _ _ _ Hr) as (chunks & text & c' & Htr & Hcc & He & Hrr & Hrun).
-  exists t1, chunks, text, s1, c'. rewrite Htr, Ht1, <- app_assoc, <- Hd.
-  repeat split; try assumption.
-  apply Forall_forall. intros ev Hin. rewrite Forall_forall in Hc1. exact (proj2 (Hc1 ev Hin)).
-Qed.
-
-(* a path with CR, LF or NUL: the visit never completes (SIZE, or MLSD for a
-   listing, is refused with ProtocolError, which no handler in Session swallows) *)
-Lemma catch_server_ok_protocol {A} (m : M A) h s s1 :
-  m s = (s1, Err EProtocol) -> catch_server m h s = (s1, Err EProtocol).
-Proof. intros H. unfold catch_server. now rewrite H. Qed.
-
-Theorem visit_bad_path_fails limit q fresh cached s s' r :
-  existsb bad_char (q_path q) = true ->
-  visit limit q fresh cached s = (s', r) -> exists e, r = Err e.
-Proof.
-  intros Hb H. destruct r as [x|e]; [exfalso|now exists e].
-  unfold visit in H. apply bind_ok in H. destruct H as (s1 & a & Hs & _).
-  destruct (q_listing q).
-  - unfold start_listing in Hs.
-    apply bind_ok in Hs. destruct Hs as (s2 & a2 & _ & Hs).
-    apply bind_ok in Hs. destruct Hs as (s3 & a3 & _ & Hs).
-    unfold catch_server, begin_stream, bind in Hs.
-    rewrite (bad_argument_not_written MLSD _ Hb) in Hs. discriminate.
-  - unfold start in Hs.
-    apply bind_ok in Hs. destruct Hs as (s2 & a2 & _ & Hs).
-    apply bind_ok in Hs. destruct Hs as (s3 & a3 & Hs & _).
-    unfold fetch_size, catch_server, bind in Hs.
-    rewrite (bad_argument_not_written SIZE _ Hb) in Hs. discriminate.
-Qed.
-
-(* ================================================================== *)
-(* statements in the form Props/C17.v cites                            *)
-(* ================================================================== *)
-Lemma visit_one_line_closed limit q fresh cached ctrl data s' r :
-  visit limit q fresh cached (mkSess ctrl data []) = (s', r) ->
-  Forall (fun ev => match ev with
-                    | EvWrite bs =>
-                        (exists name arg, In name command_names /\ Forall safe_byte arg
-                                          /\ bs = name ++ 32 :: arg ++ [13; 10])
-                        /\ (exists body, bs = body ++ [13; 10] /\ Forall safe_byte body)
-                    | _ => True
-                    end) (s_tr s').
-Proof.
-  intros H. destruct (visit_one_line _ _ _ _ _ _ _ H) as (t & Ht & Ho).
-  cbn [s_tr app] in Ht. rewrite Ht. eapply Forall_impl; [|exact Ho].
-  intros ev Hev. destruct ev; try exact I. cbn [ok_event] in Hev. split; [exact Hev|].
-  now apply one_line_wire.
-Qed.
-
-Lemma bad_argument_refused_closed :
-  (forall name arg s, existsb bad_char arg = true -> write_command name arg s = (s, Err EProtocol))
-  /\ (forall limit q fresh cached s s' r,
-        existsb bad_char (q_path q) = true ->
-        visit limit q fresh cached s = (s', r) -> exists e, r = Err e).
-Proof.
-  split.
-  - intros name arg s H. now apply bad_argument_not_written.
-  - intros. eapply visit_bad_path_fails; eassumption.
-Qed.
-
-Lemma reply_matches_reference_conn limit r rest c :
-  rfc_wf limit r ->
-  stream c = render r ++ rest ->
-  rr_view (read_reply_run limit c) = SOk (rfc_code r) (rfc_text r) rest.
-Proof.
-  intros Hw Hs. rewrite read_reply_run_is_stream, Hs. now apply reply_matches_reference.
-Qed.
